@@ -183,9 +183,11 @@ impl<'a> BinArchiveWriter<'a> {
     }
 
     pub fn write_bytes(&mut self, value: &[u8]) -> Result<()> {
-        for byte in value {
-            self.write_u8(*byte)?;
+        if value.is_empty() {
+            return Ok(());
         }
+        self.archive.write_bytes(self.position, value)?;
+        self.position += value.len();
         Ok(())
     }
 
